@@ -16,10 +16,10 @@ LEVEL = "exploration"
 TECHNIQUE = ("model-based stateful testing (Hypothesis-generated histories, shrunk as one value) on ONE virtual time line that "
              "drives the agent's engine clock and every clock source the client could consult (time.time, time.monotonic, "
              "perf_counter and therefore loop.time): request / advance(dt) / reboot steps; oracle = discovery first, discovered "
-             "engine id used, foreign discovery msgID refused, and every request the model expects to succeed succeeds")
+             "engine id used, foreign discovery msgID refused, no untimely message on the wire except the first after a restart of the engine, and every request the model expects to succeed succeeds")
 RULE = ("case = security level {noAuthNoPriv, authNoPriv MD5/SHA-1, authPriv} x optional configured context engine id x discovery "
         "reply variant {conformant, foreign msgID (+1, -1, random), no bindings, Response instead of Report} x history of 2..30 "
-        "steps from {request(get | getnext | set | walk), advance(dt in 1, 30, 149, 151, 3600, 86400 x k), reboot, poll(n in 120..400 requests spaced 0.4..1.3 s)}, discovery Report optionally naming another context engine; non-trivial = "
+        "steps from {request(get | getnext | set | walk, optionally inside a reconfigure block), advance(dt in 1, 30, 149, 151, 3600, 86400 x k), reboot, poll(n in 120..400 requests spaced 0.4..1.3 s)}, discovery Report optionally naming another context engine, usmStats counters starting anywhere in Counter32 (the Report may carry 0); non-trivial = "
         ">= 2 requests separated by an advance, or a reboot between requests, or a non-conformant discovery reply; distinct = "
         "SHA-1 of canonical JSON case")
 ASSUMPTIONS = [
@@ -36,7 +36,12 @@ WANT = {"get": ("OctetString", b"name"), "set": ("OctetString", b"name"), "getne
         "walk": [(COL + (1,), "OctetString", b"lo"), (COL + (2,), "OctetString", b"eth0")]}
 
 
-async def _req(client, op):
+async def _req(client, op, inside=False):
+    if inside:
+        # the request is issued inside a temporary override (a per-request timeout): what the client learns about the
+        # engine meanwhile must not be forgotten when the block is left
+        with client.reconfigure(timeout=7):
+            return await _req(client, op)
     O = vworld.OID
     if op == "get":
         return vworld.observe(await client.get(O(SCALAR)))
@@ -97,6 +102,10 @@ def run_case(case, exclude_known=True) -> Result:
     with vclock.virtual(case.get("start", 1_700_000_000)) as vt:
         agent, client = vworld.make_world(proto, dict(DB), request_cap=5000)
         agent.mangle = mangle
+        agent.counter_base = case.get("counter_base", 0)
+        if (agent.counter_base + 1) % 2 ** 32 == 0:
+            classes.add("disco_counter_zero")
+        reboot_pending = False     # the engine restarted and the client cannot know yet
         head = "%s%s" % (vworld.proto_label(proto), " ctx-engine=%s" % case["ctx_engine"] if case.get("ctx_engine") else "")
         steps = []
         for st_ in case["steps"]:
@@ -119,6 +128,7 @@ def run_case(case, exclude_known=True) -> Result:
                 continue
             if step[0] == "reboot":
                 agent.reboot()
+                reboot_pending = True
                 st8["rebooted_since_disco"] = True
                 reboot_between = True
                 classes.add("reboot")
@@ -128,7 +138,9 @@ def run_case(case, exclude_known=True) -> Result:
             expect_bad_disco = disco["kind"] not in ("ok", "ok_other_ctx") and not st8["bad_disco_done"]
             exc = res = None
             try:
-                res = vworld.run(_req(client, op))
+                res = vworld.run(_req(client, op, inside=len(step) > 2 and step[2] == "inside"))
+                if len(step) > 2:
+                    classes.add("request_inside_reconfigure")
             except vagent.AgentInternalError as e:
                 return Result("%s: the client sent something the reference agent cannot handle: %s" % (where, e), nontrivial, sorted(classes))
             except vagent.CapExceeded:
@@ -169,10 +181,18 @@ def run_case(case, exclude_known=True) -> Result:
                 elif not isinstance(exc, (SnmpError, TypeError, ValueError, IndexError, AttributeError)):
                     return Result("%s: malformed discovery reply raised %s: %s" % (where, type(exc).__name__, exc), nontrivial, cls)
                 continue
-            # -- requests carry the discovered engine id ----------------------
+            # -- requests carry the discovered engine id and are timely ----------------------
             for r in new:
                 if r.get("discovery"):
+                    reboot_pending = False
                     continue
+                if r.get("verdict") == "notInTimeWindow":
+                    # the only excusable untimely message is the first one after a restart of the engine
+                    if not reboot_pending:
+                        return Result("%s: the client sent engine boots/time %s/%s, the agent is at %d/%d and has not restarted since "
+                                      "the client last learned them" % (where, r["boots"], r["time"], agent.boots, agent.engine_time()),
+                                      nontrivial, cls)
+                    reboot_pending = False
                 if r["engine_id"] != agent.engine_id:
                     return Result("%s: msgAuthoritativeEngineID %s, discovered %s" % (where, r["engine_id"].hex(), agent.engine_id.hex()),
                                   nontrivial, cls)
@@ -202,6 +222,7 @@ def replay_known(case) -> Result:
 
 STEP = st.one_of(
     st.tuples(st.just("req"), st.sampled_from(["get", "get", "getnext", "set", "walk"])).map(list),
+    st.tuples(st.just("req"), st.sampled_from(["get", "set", "walk"]), st.just("inside")).map(list),
     st.tuples(st.just("req"), st.sampled_from(["get", "get", "getnext", "set", "walk"])).map(list),
     st.tuples(st.just("adv"), st.one_of(st.sampled_from([1, 30, 149, 150, 151, 152, 300, 3600, 86400]),
                                         st.integers(1, 30).map(lambda k: 86400 * k), st.integers(1, 400))).map(list),
@@ -224,6 +245,9 @@ def cases(draw, max_steps=12):
                 start=draw(st.sampled_from([1_700_000_000, 1_700_000_000.75, 5, 2 ** 31 - 10 ** 8])))
     if draw(st.integers(0, 4)) == 0:
         case["ctx_engine"] = draw(st.sampled_from([b"\x80\x00\x1f\x88\x04other-ctx", b"\x80\x00\x00\x09\x05" + b"\x00" * 12])).hex()
+    if draw(st.integers(0, 2)) == 0:
+        # the agent's usmStats counters did not start at zero: the discovery Report may carry any Counter32 value, 0 included
+        case["counter_base"] = draw(st.sampled_from([2 ** 32 - 1, 2 ** 32 - 1, 2 ** 32 - 2, 41, 2 ** 31 - 1, 2 ** 31]))
     k = draw(st.sampled_from(["ok", "ok", "ok", "ok_other_ctx", "msgid", "msgid", "novb", "response"]))
     case["disco"] = dict(kind=k)
     if k == "msgid":
